@@ -19,7 +19,9 @@
      label a l        -- Ll: a
      loop a n c       -- counted loop running the body n times; c = 1: do-while (body runs at least once)
      switch a n       -- switch (n) over the case list a;  case a n (n = 0: default)
-     forof a n b c l nt -- for (x of mk(l, n, hasReturn b, returnThrows c, nextThrowsAt nt)) a
+     fatal n          -- __fatal(n): raises an uncatchable condition of kind n (interrupt / stack overflow / foreign Go panic)
+     forof a n b c l nt fk -- for (x of mk(l, n, hasReturn b, returnThrows c, nextThrowsAt nt, faultKind fk)) a
+                         (fk # 0: the scripted failures of next()/return() are uncatchable conditions instead of throw 7 / 8)
      consume n b c l nt k -- a built-in consumes the whole iterator: next() until done; no return() when next() throws
      destr n b c l nt k -- [x1..xk] = mk(...): k next() calls, then IteratorClose if not exhausted
      yield n          -- log(7000 + (yield n))                         (generators only)
@@ -48,6 +50,9 @@ N(i) == P.nodes[i]
 IsGen == P.gen = 1
 Normal == [ty |-> "normal", v |-> 0, lbl |-> 0]
 Throw(v) == [ty |-> "throw", v |-> v, lbl |-> 0]
+\* an uncatchable condition (interrupt, stack overflow, foreign Go panic): execution stops where it is raised; no catch,
+\* no finally, no IteratorClose runs (property C08, last sentence); fk names the fault kind
+Fatal(fk) == [ty |-> "fatal", v |-> fk, lbl |-> 0]
 Res(v, d) == 100000 + v * 10 + d        \* an IteratorResult {value: v, done: d} seen by the driver
 Top == k[Len(k)]
 Pop == SubSeq(k, 1, Len(k) - 1)
@@ -68,10 +73,15 @@ LblSet(j) == IF j >= 1 /\ k[j].tag = "lbl" THEN {N(k[j].node).l} \cup LblSet(j -
 \* iterator protocol over instrumented descriptors
 NextLog(n, c) == 30000 + n.l * 100 + c
 
+\* what an instrumented iterator does when its next() (call nt) / return() (c = 1) is scripted to fail: throw 7 / 8, or, when the
+\* descriptor carries a fault kind fk, raise the uncatchable condition from inside the method
+Thr7(n) == IF n.fk # 0 THEN mode' = "done" /\ comp' = Fatal(n.fk) ELSE mode' = "unw" /\ comp' = Throw(7)
+RetFatal(n) == n.b = 1 /\ n.c = 1 /\ n.fk # 0
+
 \* the body of a for-of finished (normally or by a matching continue): call next() again
 NextCall(f, n) ==
   /\ log' = Append(log, NextLog(n, f.i + 1))
-  /\ IF n.nt = f.i + 1 THEN k' = Pop /\ mode' = "unw" /\ comp' = Throw(7) /\ UNCHANGED cur
+  /\ IF n.nt = f.i + 1 THEN k' = Pop /\ Thr7(n) /\ UNCHANGED cur
      ELSE IF f.i < n.n THEN k' = Append(Pop, [f EXCEPT !.i = f.i + 1]) /\ cur' = n.a /\ mode' = "exec" /\ comp' = Normal
      ELSE k' = Pop /\ cur' = f.node /\ mode' = "adv" /\ comp' = Normal
 
@@ -79,7 +89,8 @@ NextCall(f, n) ==
 Close(f, n, brk) ==
   /\ log' = IF n.b = 1 THEN Append(log, 40000 + n.l * 100) ELSE log
   /\ k' = Pop
-  /\ IF comp.ty = "throw" THEN UNCHANGED <<mode, cur, comp>>                       \* original throw wins
+  /\ IF RetFatal(n) THEN mode' = "done" /\ comp' = Fatal(n.fk) /\ UNCHANGED cur      \* uncatchable raised inside return()
+     ELSE IF comp.ty = "throw" THEN UNCHANGED <<mode, cur, comp>>                  \* original throw wins
      ELSE IF n.b = 1 /\ n.c = 1 THEN mode' = "unw" /\ comp' = Throw(8) /\ UNCHANGED cur   \* return() threw
      ELSE IF brk THEN cur' = f.node /\ mode' = "adv" /\ comp' = Normal
      ELSE UNCHANGED <<mode, cur, comp>>
@@ -94,7 +105,7 @@ ExecConsume(n) ==
   LET calls == IF n.nt # 0 /\ n.nt <= n.n + 1 THEN n.nt ELSE n.n + 1
       throws == n.nt # 0 /\ n.nt <= n.n + 1
   IN /\ log' = log \o NextLogs(n, 1, calls)
-     /\ IF throws THEN mode' = "unw" /\ comp' = Throw(7) ELSE mode' = "adv" /\ UNCHANGED comp
+     /\ IF throws THEN Thr7(n) ELSE mode' = "adv" /\ UNCHANGED comp
      /\ UNCHANGED <<cur, k>>
 
 ExecDestr(n) ==
@@ -106,8 +117,8 @@ ExecDestr(n) ==
       exhausted == ~throws /\ want >= avail
       closes == ~throws /\ ~exhausted /\ n.b = 1
   IN /\ log' = log \o NextLogs(n, 1, calls) \o (IF closes THEN <<40000 + n.l * 100>> ELSE <<>>)
-     /\ IF throws THEN mode' = "unw" /\ comp' = Throw(7)
-        ELSE IF closes /\ n.c = 1 THEN mode' = "unw" /\ comp' = Throw(8)
+     /\ IF throws THEN Thr7(n)
+        ELSE IF closes /\ n.c = 1 THEN (IF n.fk # 0 THEN mode' = "done" /\ comp' = Fatal(n.fk) ELSE mode' = "unw" /\ comp' = Throw(8))
         ELSE mode' = "adv" /\ UNCHANGED comp
      /\ UNCHANGED <<cur, k>>
 
@@ -134,6 +145,7 @@ Exec ==
                          IF br = 0 THEN mode' = "adv" /\ UNCHANGED <<cur, comp, k, log, G>>
                          ELSE k' = Append(k, F("blk", cur, 0, Normal)) /\ cur' = br /\ UNCHANGED <<mode, comp, log, G>>)
        [] n.t = "throw" -> mode' = "unw" /\ comp' = Throw(n.n) /\ UNCHANGED <<cur, k, log, G>>
+       [] n.t = "fatal" -> mode' = "done" /\ comp' = Fatal(n.n) /\ UNCHANGED <<cur, k, log, G>>
        [] n.t = "break" -> mode' = "unw" /\ comp' = [ty |-> "break", v |-> 0, lbl |-> n.l] /\ UNCHANGED <<cur, k, log, G>>
        [] n.t = "continue" -> mode' = "unw" /\ comp' = [ty |-> "continue", v |-> 0, lbl |-> n.l] /\ UNCHANGED <<cur, k, log, G>>
        [] n.t = "return" -> mode' = "unw" /\ comp' = [ty |-> "return", v |-> n.n, lbl |-> 0] /\ UNCHANGED <<cur, k, log, G>>
@@ -149,7 +161,7 @@ Exec ==
                              ELSE k' = Append(k, F("sw", cur, c, Normal)) /\ cur' = N(c).a /\ UNCHANGED <<mode, comp, log, G>>)
        [] n.t = "forof" ->
             /\ log' = Append(log, NextLog(n, 1)) /\ UNCHANGED G
-            /\ (IF n.nt = 1 THEN mode' = "unw" /\ comp' = Throw(7) /\ UNCHANGED <<cur, k>>
+            /\ (IF n.nt = 1 THEN Thr7(n) /\ UNCHANGED <<cur, k>>
                 ELSE IF n.n >= 1 THEN k' = Append(k, [F("forof", cur, 1, Normal) EXCEPT !.ls = LblSet(Len(k))])
                                       /\ cur' = n.a /\ UNCHANGED <<mode, comp>>
                 ELSE mode' = "adv" /\ UNCHANGED <<cur, comp, k>>)
@@ -158,7 +170,7 @@ Exec ==
        [] n.t = "yield" -> Suspend(Res(n.n, 0)) /\ UNCHANGED <<cur, comp, k, di>>
        [] n.t = "ystar" ->
             \* yield* mk(...): first next(undefined) on the inner iterator
-            /\ (IF n.nt = 1 THEN log' = Append(log, NextLog(n, 1)) /\ mode' = "unw" /\ comp' = Throw(7) /\ UNCHANGED <<cur, k, G>>
+            /\ (IF n.nt = 1 THEN log' = Append(log, NextLog(n, 1)) /\ Thr7(n) /\ UNCHANGED <<cur, k, G>>
                 ELSE IF n.n >= 1
                 THEN /\ k' = Append(k, F("ystar", cur, 1, Normal)) /\ UNCHANGED <<cur, comp, di>>
                      /\ log' = log \o <<NextLog(n, 1), Res(1, 0)>> /\ mode' = "drv"
@@ -239,7 +251,7 @@ ResumeYStar(o, f, n) ==
   LET rest == SubSeq(gk, 1, Len(gk) - 1) IN
   IF o.op = "next" THEN
        /\ UNCHANGED gcur
-       /\ (IF n.nt = f.i + 1 THEN log' = Append(log, NextLog(n, f.i + 1)) /\ k' = rest /\ mode' = "unw" /\ comp' = Throw(7) /\ gst' = "run" /\ UNCHANGED gk
+       /\ (IF n.nt = f.i + 1 THEN log' = Append(log, NextLog(n, f.i + 1)) /\ k' = rest /\ Thr7(n) /\ gst' = "run" /\ UNCHANGED gk
            ELSE IF f.i < n.n THEN /\ log' = log \o <<NextLog(n, f.i + 1), Res(f.i + 1, 0)>> /\ mode' = "drv" /\ gst' = "susp" /\ UNCHANGED comp
                                    /\ k' = Append(rest, [f EXCEPT !.i = f.i + 1]) /\ gk' = k'
            ELSE log' = log \o <<NextLog(n, f.i + 1), 8000>> /\ k' = rest /\ mode' = "adv" /\ comp' = Normal /\ gst' = "run" /\ UNCHANGED gk)
@@ -251,11 +263,13 @@ ResumeYStar(o, f, n) ==
            THEN log' = log \o <<45000 + n.l * 100, 8055>> /\ mode' = "adv" /\ comp' = Normal
            ELSE \* no throw method: close the inner iterator, then TypeError (observed as throw 9999)
                 /\ log' = (IF n.b = 1 THEN Append(log, 40000 + n.l * 100) ELSE log)
-                /\ mode' = "unw" /\ comp' = (IF n.b = 1 /\ n.c = 1 THEN Throw(8) ELSE Throw(9999)))
+                /\ (IF RetFatal(n) THEN mode' = "done" /\ comp' = Fatal(n.fk)
+                    ELSE mode' = "unw" /\ comp' = (IF n.b = 1 /\ n.c = 1 THEN Throw(8) ELSE Throw(9999))))
   ELSE \* return(v): forwarded to the inner iterator's return(); its result {done: true} completes the generator's return
        /\ UNCHANGED <<gk, gcur>> /\ gst' = "run" /\ k' = rest
-       /\ (IF n.b = 1 THEN log' = Append(log, 40000 + n.l * 100) /\ mode' = "unw"
-                           /\ comp' = (IF n.c = 1 THEN Throw(8) ELSE [ty |-> "return", v |-> o.v, lbl |-> 0])
+       /\ (IF n.b = 1 THEN log' = Append(log, 40000 + n.l * 100)
+                           /\ (IF RetFatal(n) THEN mode' = "done" /\ comp' = Fatal(n.fk)
+                               ELSE mode' = "unw" /\ comp' = (IF n.c = 1 THEN Throw(8) ELSE [ty |-> "return", v |-> o.v, lbl |-> 0]))
            ELSE mode' = "unw" /\ comp' = [ty |-> "return", v |-> o.v, lbl |-> 0] /\ UNCHANGED log)
 
 Drv ==
@@ -292,10 +306,10 @@ Spec == Init /\ [][Next]_vars
 FrameTags == {"blk", "lbl", "try", "catch", "fin", "loop", "sw", "forof", "ystar"}
 TypeOK == /\ mode \in {"exec", "adv", "unw", "drv", "done"}
           /\ \A i \in 1..Len(k) : k[i].tag \in FrameTags
-          /\ comp.ty \in {"normal", "throw", "return", "break", "continue"}
+          /\ comp.ty \in {"normal", "throw", "return", "break", "continue", "fatal"}
           /\ gst \in {"start", "run", "susp", "done"}
 \* a completion only travels in mode "unw"; a running generator is never resumed (re-entrancy is a driver error)
-CompOK == (mode \in {"exec", "adv"} => comp.ty = "normal") /\ (mode = "drv" => gst # "run")
+CompOK == (mode \in {"exec", "adv"} => comp.ty = "normal") /\ (mode = "drv" => gst # "run") /\ (comp.ty = "fatal" => mode = "done")
 \* programs are trees without recursion: a try statement owns at most one frame at a time, i.e. its body / catch /
 \* finally phases replace each other and a finally block is entered at most once per exit of the region
 RegionFrames == {"try", "catch", "fin"}
